@@ -161,10 +161,11 @@ def resource_dir():
     return _resdir
 
 
-def extract_unit(src, flags, outpath, extra=()):
+def extract_unit(src, flags, outpath, extra=(), roots=None):
     fl = [f for f in flags if not f.startswith(('-W', '-O'))]
-    cmd = [GLFACTS, '--out=' + outpath, '--root=' + REPO + '/', src, '--'] + fl + \
-          ['-UNDEBUG', '-w', '-resource-dir=' + resource_dir()] + list(extra)
+    rt = ['--root=' + r for r in (roots or [REPO + '/'])]
+    cmd = [GLFACTS, '--out=' + outpath] + rt + [src, '--'] + fl + \
+          ['-UNDEBUG', '-w', '-Wno-c++11-narrowing', '-resource-dir=' + resource_dir()] + list(extra)
     r = _run(cmd)
     if r.returncode != 0 or not os.path.exists(outpath):
         raise AnalysisBroken('glfacts failed on %s: %s' % (src, r.stderr[-1500:]))
@@ -236,14 +237,16 @@ def load_program(precision=2, roles=('src', 'tools'), verbose=False):
     return ir.Program(raw)
 
 
-def extract_single(src, extra_defs=(), precision=2, tag=''):
+def extract_single(src, extra_defs=(), precision=2, tag='', roots=None):
     """Extract one unit with extra -D flags (series orders); cached; returns raw dict."""
     from . import ir
     build_glfacts()
     h = hashlib.sha256()
     h.update(_hash_files(source_inputs() + cmake_inputs()).encode())
     h.update(str(os.path.getmtime(GLFACTS_SRC)).encode())
-    h.update(repr((src, tuple(extra_defs), precision)).encode())
+    h.update(repr((src, tuple(extra_defs), precision, roots)).encode())
+    if not src.startswith(REPO):
+        h.update(_hash_files([src]).encode())
     key = h.hexdigest()[:20]
     cdir = os.path.join(BUILD, 'facts')
     os.makedirs(cdir, exist_ok=True)
@@ -269,7 +272,7 @@ def extract_single(src, extra_defs=(), precision=2, tag=''):
     if e is None:
         raise AnalysisBroken('no compile command for ' + src)
     out = os.path.join(cdir, 'single-%s-%d.json' % (key, os.getpid()))
-    extract_unit(src, unit_flags(e), out, extra=list(extra_defs))
+    extract_unit(src, unit_flags(e), out, extra=list(extra_defs), roots=roots)
     raw = ir.merge_units([out], [unit_flags(e)])
     os.remove(out)
     with open(pk + '.tmp%d' % os.getpid(), 'wb') as f:
